@@ -150,3 +150,62 @@ out["stderr_tail"] = p.stderr.read().decode(errors="replace")[-1500:]
 import shutil; shutil.rmtree(d, ignore_errors=True)
 print(json.dumps(out))
 '''
+
+
+# Signals aimed at the tracker's start-up window: a thread fires SIGINT/SIGTERM at the new tracker the moment its pid is known
+# (the interpreter of the tracker is still booting then); between rounds the tracker is SIGKILLed so that the next tracked
+# operation starts a fresh one.
+STORM = r'''
+import json, os, signal, sys, threading, time, warnings
+warnings.simplefilter("ignore")
+from loky.backend import resource_tracker as rt
+def alive(pid):
+    try:
+        os.kill(pid, 0)
+    except OSError:
+        return False
+    try:
+        return open(f"/proc/{pid}/stat").read().rsplit(")", 1)[1].split()[0] != "Z"
+    except OSError:
+        return False
+rounds = int(sys.argv[1])
+tr = rt._resource_tracker
+stop = False
+sent = []
+def hunter():
+    last = None
+    while not stop:
+        pid = tr._pid
+        if pid is not None and pid != last:
+            last = pid
+            for k in range(6):
+                try:
+                    os.kill(pid, signal.SIGTERM if k % 2 else signal.SIGINT)
+                    sent.append(pid)
+                except OSError:
+                    break
+                time.sleep(0.004)
+th = threading.Thread(target=hunter, daemon=True); th.start()
+dead, pids = [], []
+for r in range(rounds):
+    rt.ensure_running()
+    pid = tr._pid
+    pids.append(pid)
+    time.sleep(0.12)
+    for sig in (signal.SIGINT, signal.SIGTERM):
+        os.kill(pid, sig) if alive(pid) else None
+    time.sleep(0.03)
+    if not alive(pid):
+        dead.append(pid)
+    else:
+        os.kill(pid, signal.SIGKILL)
+        t0 = time.time()
+        while alive(pid) and time.time() - t0 < 5:
+            try:
+                os.waitpid(pid, os.WNOHANG)
+            except OSError:
+                pass
+            time.sleep(0.005)
+stop = True
+print(json.dumps({"rounds": rounds, "distinct_trackers": len(set(pids)), "signals_sent": len(sent), "died_of_signals": dead}))
+'''
